@@ -37,7 +37,21 @@ SS_DTYPES = {'BINARY': ['int8', 'int8', 'int32', 'int64', 'uint8', 'bool', 'floa
 # generation
 
 def pick_labels(rng, n, style=None):
-    style = style or rng.choice(['int', 'str', 'mixed', 'tuple', 'mixed', 'float'])
+    style = style or rng.choice(['int', 'str', 'mixed', 'tuple', 'mixed', 'float', 'sparse', 'sparse', 'sparse', 'perm'])
+    if style == 'sparse':
+        # small non-negative integers that are not 0..n-1 (qubit-index-like): dense enough that labels fall
+        # among the indices and just above them, where relabelling has to go through intermediate labels
+        k = rng.choice([1, 2, 3, 3, 4, 10])
+        lo = rng.choice([0, 0, 1, 2, n])
+        pool = list(range(lo, lo + k * n + 2))
+        labels = rng.sample(pool, min(n, len(pool)))
+        return labels if rng.random() < 0.5 else sorted(labels)
+    if style == 'perm':
+        # 0..n-1 (or a shifted range) in a shuffled insertion order
+        lo = rng.choice([0, 0, 1, 5])
+        labels = list(range(lo, lo + n))
+        rng.shuffle(labels)
+        return labels
     if style == 'int':
         pool = list(INT_LABELS) + list(range(40, 40 + max(0, n)))
     elif style == 'range':
@@ -152,7 +166,7 @@ def gen_case(rng, tier):
     dtype = rng.choice(dts)
     n = rng.choice([0, 1, 2, 3, 5, 8, 31, 32, 33, 37, 64, 65, 70] if tier == 'quick' else [0, 1, 2, 3, 7, 31, 32, 33, 63, 64, 65, 96, 97, 130])
     nrows = rng.choice([0, 1, 1, 2, 3, 5])
-    labels = pick_labels(rng, n, rng.choice(['range', 'int', 'str', 'mixed', 'tuple', 'range']))
+    labels = pick_labels(rng, n, rng.choice(['range', 'int', 'str', 'mixed', 'tuple', 'range', 'sparse', 'sparse', 'perm']))
     rows = []
     for _ in range(nrows):
         row = []
@@ -677,7 +691,17 @@ def run_ss(c):
 def run_case(c):
     k = c["kind"]
     if k == "bqm":
-        return run_bqm(c)
+        # the original model must be observable (else: harness error); a failure while observing what
+        # came back is a property failure (e.g. an internally inconsistent label table)
+        b0 = build_bqm(c)
+        [b0.get_linear(v) for v in b0.variables], list(b0.iter_quadratic())
+        try:
+            return run_bqm(c)
+        except (KeyError, ValueError, IndexError) as e:
+            import traceback
+            return {"py_fail": f"the BQM that came back ({c['route']}) cannot be observed: {type(e).__name__}: {e} | "
+                               + traceback.format_exc().strip().splitlines()[-3].strip(),
+                    "features": {"kind": "bqm", "route": c["route"], "dtype": c["dtype"], "unobservable": True}}
     if k == "coo":
         return run_coo(c)
     if k == "labels":
